@@ -399,6 +399,7 @@ class Verifier:
             for name in con.free:
                 env[name] = frame.parent.env[name]
         try:
+            self.check_frame(eng, con, fn)
             if kind == "normal":
                 if getattr(frame, "is_gen", False):
                     val = frame.env["__yielded__"]
@@ -427,6 +428,62 @@ class Verifier:
 
     def check_result_type(self, eng, con, val):
         pass
+
+    def check_frame(self, eng, con, fn):
+        """Frame condition: everything reachable from the parameters at entry that the contract
+        does not list under `modifies` is unchanged at exit (obligation `frame:<path>`)."""
+        import z3 as _z3
+        from .values import VObj, VSeq, VInt, VBool, VRef, VChunks, VDict, seq_eq
+        from .models import py_eq
+        mods = list(con.modifies)
+        pfx = con.oid_prefix
+
+        def allowed(path):
+            return any(path == m or path.startswith(m + ".") for m in mods)
+
+        def same(path, old, new, depth):
+            if allowed(path) or (old is new and not isinstance(old, VRef)):
+                return
+            if isinstance(old, VRef) and isinstance(new, VRef):
+                if old.addr != new.addr:
+                    eng.prove(f"{pfx}:frame:{path}", False, "frame", fn, detail=f"{path} rebound to another object but not listed in modifies", assume_after=False)
+                    return
+                o0 = eng.heap_at_entry.get(old.addr)
+                o1 = eng.heap.get(old.addr)
+                if o0 is o1 or o0 is None:
+                    return
+                if isinstance(o0, VObj) and isinstance(o1, VObj):
+                    for f in sorted(set(o0.fields) | set(o1.fields)):
+                        a, b = o0.fields.get(f), o1.fields.get(f)
+                        if a is None:
+                            continue     # attribute created lazily on first read: not a write
+                        if b is None:
+                            continue
+                        if depth < 4:
+                            same(f"{path}.{f}", a, b, depth + 1)
+                    return
+                same(path, o0, o1, depth + 1)
+                return
+            if isinstance(old, (VInt, VBool)) and isinstance(new, (VInt, VBool)):
+                eng.prove(f"{pfx}:frame:{path}", py_eq(eng, old, new, fn), "frame", fn, detail=f"{path} unchanged (not in modifies)")
+                return
+            if isinstance(old, VSeq) and isinstance(new, VSeq):
+                eng.prove(f"{pfx}:frame:{path}", seq_eq(old, new), "frame", fn, detail=f"{path} unchanged (not in modifies)")
+                return
+            if isinstance(old, VChunks) and isinstance(new, VChunks):
+                eng.prove(f"{pfx}:frame:{path}", _z3.And(seq_eq(old.join, new.join), old.count == new.count), "frame", fn, detail=f"{path} unchanged (not in modifies)")
+                return
+            if type(old) is type(new) and getattr(old, "t", None) is not None and getattr(new, "t", None) is not None:
+                try:
+                    eng.prove(f"{pfx}:frame:{path}", old.t == new.t, "frame", fn, detail=f"{path} unchanged (not in modifies)")
+                    return
+                except Exception:
+                    pass
+            eng.prove(f"{pfx}:frame:{path}", False, "frame", fn, detail=f"{path} changed ({type(old).__name__} -> {type(new).__name__}) but not listed in modifies", assume_after=False)
+
+        for name, v in eng.entry_env.items():
+            if isinstance(v, VRef):
+                same(name, v, v, 0)
 
     # ---- precondition satisfiable / canary
     def check_requires_sat(self, con):
